@@ -177,6 +177,8 @@ def ref_to_self_field(v, field):
 def analyze(ctx, want):
     """want: set of rule ids to emit."""
     F = ctx.facts
+    from . import adaptors
+    adaptors.analyze(ctx, ("C09.g",))       # no walk over the cursor, the line starts or the peeked matches drops an element
     ctx.trust("rustc type checker / MIR construction (nightly), the fact driver")
     ctx.trust("log macros (trace!/debug!) are effect-free")
     ctx.trust("std: str::char_indices/CharIndices::next yield byte offsets relative to the slice they were created over; vec!, Vec::insert, slice::binary_search")
